@@ -233,7 +233,9 @@ def hull_attr(interp, base, attr):
     pk, nd = k
     t = interp.time
     if attr in ("vertices", "simplices", "neighbors"):
-        return Val(dim=D0, kind="idx", deps=base.deps, born=t, tags=frozenset(["1d"]) if attr == "vertices" else frozenset())
+        rt = frozenset([("ret", "scipy.spatial.ConvexHull")])
+        return Val(dim=D0, kind="idx", deps=base.deps, pdeps=base.pdeps, born=t,
+                   tags=(frozenset(["1d"]) if attr == "vertices" else frozenset()) | rt)
     if attr == "equations":
         cols = tuple([Fraction(0)] * nd + [pk])
         return Val(dim=("COLS", cols, 1), kind="arr", deps=base.deps, born=t, tags=frozenset(["hull"]))
@@ -255,7 +257,8 @@ def value_attr(interp, base, attr, st, node):
     if attr in VIEW_ATTRS:
         return base.copy(items=None, const=NOCONST, sym=None)
     if attr in ("shape",):
-        return Val(kind="tuple", dim=D0, elem=Val(kind="int", dim=D0), born=interp.time)
+        return Val(kind="tuple", dim=D0, elem=Val(kind="int", dim=D0, deps=base.deps, pdeps=base.pdeps),
+                   deps=base.deps, pdeps=base.pdeps, born=interp.time)
     if attr in ("size", "ndim"):
         return Val(kind="int", dim=D0, born=interp.time)
     if attr == "flags":
@@ -338,7 +341,8 @@ def call_method(interp, base, name, node, args, kwargs, st):
             dim = dim_contract(dim) if ax is None or not (ax.has_const() and ax.const in (0,)) else dim
         if name == "tolist":
             return Val(dim=dim, kind="list", deps=deps, pdeps=pdeps, born=t, tags=frozenset(["tolist"]))
-        return Val(dim=dim, kind=base.kind if base.kind in ("arr", "idx", "float") else "arr", deps=deps, pdeps=pdeps, born=t)
+        keep = frozenset(tg for tg in base.tags if isinstance(tg, tuple) and tg[0] == "saved-centroid") if name == "copy" else frozenset()
+        return Val(dim=dim, kind=base.kind if base.kind in ("arr", "idx", "float") else "arr", deps=deps, pdeps=pdeps, born=t, tags=keep)
     if name in ("all", "any"):
         interp.emit(st, "reduce", node, fn=name, target=base, axis=_arg(args, kwargs, 0, "axis"), method=True)
         return Val(dim=D0, kind="bool", deps=deps, pdeps=pdeps, born=t)
@@ -350,8 +354,11 @@ def call_method(interp, base, name, node, args, kwargs, st):
                 el = join_vals(el, v)
         if el is None:
             el = Val()
-        return Val(kind="list", elem=Val(kind="tuple", items=(Val(kind="str", dim=D0), el), dim=el.dim), dim=el.dim,
-                   deps=deps, born=t)
+        out = Val(kind="list", elem=Val(kind="tuple", items=(Val(kind="str", dim=D0), el), dim=el.dim), dim=el.dim,
+                  deps=deps, born=t)
+        if base.mapping is not None:
+            out.extra = ("items-of", list(base.mapping.items()))
+        return out
     if name in ("values",):
         el = base.elem
         if base.mapping is not None:
@@ -472,6 +479,8 @@ def call_ext(interp, ext, node, args, kwargs, st):
                     u = Val(dim=dim, kind=kind, deps=deps, pdeps=pdeps, born=t)
                     return Val(kind="tuple", items=(u, Val(dim=D0, kind="idx", deps=deps, born=t)), dim=TOP, born=t)
             sym = a0.sym if name in ("abs", "absolute", "array", "asarray", "copy") and a0.kind in ("float", "int") else None
+            if name in ("array", "asarray", "copy", "asanyarray", "atleast_1d", "squeeze"):
+                tags = tags | frozenset(tg for tg in a0.tags if isinstance(tg, tuple) and tg[0] == "saved-centroid")
             return Val(dim=dim, kind=kind, al=al, deps=deps, pdeps=pdeps, born=born, tags=tags,
                        guardp=a0.guardp if name in ("asarray", "array", "copy", "squeeze", "atleast_1d") else frozenset(),
                        sym=sym, items=None)
@@ -694,8 +703,8 @@ def call_ext(interp, ext, node, args, kwargs, st):
             except Exception:
                 pass
         if pk is None:
-            return Val(kind="hull", extra=(Fraction(0), nd), deps=deps, born=t, dim=TOP, tags=frozenset(["unknown-dim"]))
-        return Val(kind="hull", extra=(pk, nd), deps=deps, born=t, dim=TOP)
+            return Val(kind="hull", extra=(Fraction(0), nd), deps=deps, pdeps=pdeps, born=t, dim=TOP, tags=frozenset(["unknown-dim"]))
+        return Val(kind="hull", extra=(pk, nd), deps=deps, pdeps=pdeps, born=t, dim=TOP)
     if ext == "scipy.sparse.csgraph.connected_components":
         return Val(kind="tuple", items=(fresh(D0, kind="int"), fresh(D0, kind="idx", tags=frozenset(["1d"]))), dim=D0, born=t)
     if mod in ("rowan.mapping",) and name == "kabsch":
@@ -758,7 +767,8 @@ def _builtin(interp, name, node, args, kwargs, st, fresh, deps, pdeps):
     t = interp.time
     a0 = args[0] if args else None
     if name == "len":
-        return Val(dim=D0, kind="int", deps=deps, pdeps=pdeps, born=t, extra=("len", a0))
+        tg = frozenset([("len-of", tuple(sorted(a0.pdeps)))]) if a0 is not None and a0.pdeps else frozenset()
+        return Val(dim=D0, kind="int", deps=deps, pdeps=pdeps, born=t, extra=("len", a0), tags=tg)
     if name == "range":
         return Val(kind="list", elem=Val(dim=D0, kind="int", born=t, deps=deps), dim=D0, deps=deps, born=t, tags=frozenset(["range"]))
     if name == "enumerate":
